@@ -202,3 +202,11 @@ func Run(c *core.Ctx, pool *gjs.Pool) {
 	c.Set("parts_wall_s", wall)
 	c.Set("exhaustive", exhaustive && os.Getenv("VERIF_C13_PARTS") == "")
 }
+
+// endedOK: the program ran to completion.  Under heavy machine load the
+// framework's process runner can report "WaitDelay expired before I/O complete"
+// after the process has exited; the caller checks the number of printed lines,
+// so a complete output with that message is accepted.
+func endedOK(o gjs.Obs) bool {
+	return o.End == "exit" || (o.End == "fail" && strings.Contains(o.Msg, "WaitDelay expired"))
+}
